@@ -339,32 +339,84 @@ func readerKeywordSwitches(p *Program, pkgSuffix string) []*kwSwitch {
 						}
 					}
 				}
-				// `x.F = name == "TOKEN"` elsewhere in the same function is a case of the same table
-				ast.Inspect(fd.Body, func(m ast.Node) bool {
-					as, ok := m.(*ast.AssignStmt)
-					if !ok || len(as.Lhs) != 1 || len(as.Rhs) != 1 {
-						return true
+				// `x.F = name == "TOKEN"` or `if name == "TOKEN" { x.F = … }`
+				// elsewhere in the same function — or in a function that calls
+				// this one (the switch extracted into a helper) — is a case of
+				// the same table
+				extra := func(body ast.Node) {
+					add := func(tok string, v *types.Var) {
+						if ks.cases[tok] == nil {
+							ks.cases[tok] = map[*types.Var]bool{}
+						}
+						ks.cases[tok][v] = true
 					}
-					be, ok := as.Rhs[0].(*ast.BinaryExpr)
-					if !ok || be.Op != token.EQL {
-						return true
-					}
-					tok, ok := constStringOf(pk, be.Y)
-					if !ok {
-						return true
-					}
-					if se, ok := as.Lhs[0].(*ast.SelectorExpr); ok {
-						if sel := pk.TypesInfo.Selections[se]; sel != nil && sel.Kind() == types.FieldVal {
-							if v, ok := sel.Obj().(*types.Var); ok {
-								if ks.cases[tok] == nil {
-									ks.cases[tok] = map[*types.Var]bool{}
+					ast.Inspect(body, func(m ast.Node) bool {
+						switch x := m.(type) {
+						case *ast.AssignStmt:
+							if len(x.Lhs) != 1 || len(x.Rhs) != 1 {
+								return true
+							}
+							be, ok := x.Rhs[0].(*ast.BinaryExpr)
+							if !ok || be.Op != token.EQL {
+								return true
+							}
+							tok, ok := constStringOf(pk, be.Y)
+							if !ok {
+								return true
+							}
+							if se, ok := x.Lhs[0].(*ast.SelectorExpr); ok {
+								if sel := pk.TypesInfo.Selections[se]; sel != nil && sel.Kind() == types.FieldVal {
+									if v, ok := sel.Obj().(*types.Var); ok {
+										add(tok, v)
+									}
 								}
-								ks.cases[tok][v] = true
+							}
+						case *ast.IfStmt:
+							be, ok := x.Cond.(*ast.BinaryExpr)
+							if !ok || be.Op != token.EQL {
+								return true
+							}
+							tok, ok := constStringOf(pk, be.Y)
+							if !ok {
+								return true
+							}
+							// only direct assignments of the then-branch (not what a nested helper call assigns)
+							for _, st := range x.Body.List {
+								if as, ok := st.(*ast.AssignStmt); ok {
+									for v := range assigned(as, 0) {
+										add(tok, v)
+									}
+								}
 							}
 						}
+						return true
+					})
+				}
+				extra(fd.Body)
+				for _, caller := range funcs {
+					if caller == fd || caller.Body == nil {
+						continue
 					}
-					return true
-				})
+					calls := false
+					ast.Inspect(caller.Body, func(m ast.Node) bool {
+						if ce, ok := m.(*ast.CallExpr); ok {
+							switch f := ce.Fun.(type) {
+							case *ast.Ident:
+								if f.Name == fd.Name.Name {
+									calls = true
+								}
+							case *ast.SelectorExpr:
+								if f.Sel.Name == fd.Name.Name {
+									calls = true
+								}
+							}
+						}
+						return true
+					})
+					if calls {
+						extra(caller.Body)
+					}
+				}
 				if len(ks.cases) >= 2 {
 					out = append(out, ks)
 				}
